@@ -61,7 +61,7 @@ fn variants(plan: &str, _t: Tier) -> Vec<&'static str> {
 fn alphabet(plan: &str, v: &str, _t: Tier) -> Alphabet {
     // called once by the child before it enumerates: remember the variant for crash attribution
     *VARIANT.lock().unwrap() = v.to_string();
-    let base = Alphabet { sizes: vec![], sems: vec![Sem::Default], gc_kinds: vec![false, true], bursts: vec![], align_bursts: false, eph_chains: vec![], two_mutators: false, pins: false, cross_writes: false, fields: 1 };
+    let base = Alphabet { sizes: vec![], sems: vec![Sem::Default], gc_kinds: vec![false, true], bursts: vec![], refused_allocs: false, align_bursts: false, eph_chains: vec![], two_mutators: false, pins: false, cross_writes: false, fields: 1 };
     match v {
         "imm" => Alphabet { sizes: vec![40, 264], sems: vec![Sem::Default, Sem::Immortal], bursts: vec![(40, 200, 1)], ..base },
         "immnw" => Alphabet { sizes: vec![40, 264], sems: vec![Sem::Default, Sem::Immortal], bursts: vec![(40, 200, 1)], fields: 0, ..base },
